@@ -360,8 +360,11 @@ def gen_c13_case(seed, idx):
         # a type parameter, the type and its variants live in one namespace: keep them distinct
         if ty in tp or ty in variants:
             continue
-        use_local_const = rng.random() < 0.25
-        cn = rng.choice(EXPANSION_LOCALS) if use_local_const else rng.choice(HOSTILE_CONST_PARAMS)
+        r_cn = rng.random()
+        use_local_const = r_cn < 0.25
+        # the only generator-chosen names without the `__` prefix are `_eq`, `_f` (and `T`), defined and used inside one
+        # generated block (Props/C13Hyg.lean: blockLocalNames): a const parameter of that name must not capture them
+        cn = rng.choice(EXPANSION_LOCALS) if use_local_const else (rng.choice(['_eq', '_f']) if r_cn < 0.45 else rng.choice(HOSTILE_CONST_PARAMS))
         if cn in tp or cn == ty:
             continue
         names = Names(ty=ty, T=tp[0], U=tp[1], N=cn, lt=rng.choice(HOSTILE_LIFETIMES), fields=fields, variants=variants)
